@@ -18,6 +18,7 @@
 //!     after the call (C01: a removed action does not run once its removal has returned);
 //!   * a real previous handler was called exactly once per delivery, first, with its own calling
 //!     convention (C04) - also inside the first-registration window;
+//!   * the action of another signal (SIGUSR2) still runs exactly once per delivery of that signal (C02, C05);
 //!   * nothing blocked (C03, C18: a 3 s alarm turns a handler that waits for the mutex its own
 //!     thread holds into a dead child), nothing crashed;
 //!   * what an action captured was dropped exactly once if the action was removed and never
@@ -202,7 +203,7 @@ fn main() {
     }
     // the registry's globals exist before the call under test (another signal is registered), so that the first
     // registration of SIGUSR1 is the only thing the call does
-    let _other = unsafe { register(libc::SIGUSR2, || ()) }.unwrap();
+    let _other = unsafe { register(libc::SIGUSR2, || log(7)) }.unwrap();
     let ids: Vec<SigId> = (1..=nact).map(add_action).collect();
     let old: Vec<usize> = (1..=nact).collect();
     let new: Vec<usize> = match mutation {
@@ -290,6 +291,14 @@ fn main() {
     }
     if PREV_AFTER_ACTION.load(Ordering::SeqCst) != 0 {
         bad.push("CHAIN the previous handler ran after an action of the same delivery".to_string());
+    }
+    // the other signal's action is none of the call's business
+    let l0 = LOG_LEN.load(Ordering::SeqCst);
+    unsafe { libc::raise(libc::SIGUSR2) };
+    let l1 = LOG_LEN.load(Ordering::SeqCst).min(64);
+    let other: Vec<usize> = (l0..l1).map(|i| LOG[i].load(Ordering::SeqCst)).collect();
+    if other != vec![7] {
+        bad.push(format!("OTHER a delivery of SIGUSR2 ran {:?}, its registered action is [7]", other));
     }
     let drops: Vec<usize> = (1..=nact + 1).map(|t| DROPS[t].load(Ordering::SeqCst)).collect();
     for t in 1..=nact + 1 {
